@@ -32,6 +32,7 @@ package cert
 //@   ensures @C17,C05 curves != nil && (forall a in [4, 14) :: has(curves, a) && curves[a] != nil && curveId(curves[a]) == a)
 //@   ensures @C17,C05 oidv(oidP224) == specCurveOid(4) && oidv(oidP256) == specCurveOid(5) && oidv(oidP384) == specCurveOid(6) && oidv(oidP521) == specCurveOid(7) && oidv(oidBrainpoolP256r1) == specCurveOid(8) && oidv(oidBrainpoolP384r1) == specCurveOid(9) && oidv(oidBrainpoolP512r1) == specCurveOid(10) && oidv(oidBrainpoolP256t1) == specCurveOid(11) && oidv(oidBrainpoolP384t1) == specCurveOid(12) && oidv(oidBrainpoolP512t1) == specCurveOid(13)
 //@   ensures @C17,C05 curveNameOids != nil && (forall a in [4, 14) :: has(curveNameOids, curveName(a)) && curveNameOids[curveName(a)] != nil && oidv(curveNameOids[curveName(a)]) == specCurveOid(a))
+//@   ensures @C17,C05 (forall a in [4, 14) expand :: len(curveNameOids[curveName(a)]) >= 2 && curveNameOids[curveName(a)][0] == 1 && 0 <= curveNameOids[curveName(a)][1] && curveNameOids[curveName(a)][1] < 40 && (forall k in [2, len(curveNameOids[curveName(a)])) :: curveNameOids[curveName(a)][k] >= 0))
 //@   ensures @C07 oidAiaOcsp != nil && len(oidAiaOcsp) == 9 && oidv(oidAiaOcsp) == #oidAdOcsp
 //@   ensures @C07 len(extKeyUsages) == 6 && (forall i in [0, 6) :: extKeyUsages[i] != nil && oidv(extKeyUsages[i]) == specEkuOid(i))
 //@   ensures @C07 ocspNoCheck.Critical == false && ocspNoCheckCritical.Critical == true && oidv(ocspNoCheck.Id) == specExtOid(12) && oidv(ocspNoCheckCritical.Id) == specExtOid(12) && len(ocspNoCheck.Value) == 2 && ocspNoCheck.Value[0] == 5 && ocspNoCheck.Value[1] == 0 && len(ocspNoCheckCritical.Value) == 2 && ocspNoCheckCritical.Value[0] == 5 && ocspNoCheckCritical.Value[1] == 0
@@ -98,21 +99,41 @@ package cert
 //@   assigns ctx.Issuer; ctx.TbsCertificate.Issuer
 //@   ensures @C01 ctx.Issuer != nil && fresh(ctx.Issuer) && deref(ctx.Issuer) == issuerCtx && ctx.TbsCertificate.Issuer == issuerCtx.IssuerDn
 
-// SetPrivateKey / GeneratePrivateKey: the context's key and its SubjectPublicKeyInfo (abstract for now: spkiDeep)
+// SetPrivateKey: the context keeps the key; its SubjectPublicKeyInfo names rsaEncryption with NULL parameters and the
+// PKCS#1 public key, or id-ecPublicKey with the named curve of the key and the uncompressed point.
 //@ func (*CertificateContext).SetPrivateKey returns (err)
 //@   props C05 C14
-//@   unverified passes the address of a field of a heap object to asn1.Unmarshal (interior pointer, outside the subset)
-//@   uses keys.smt2
+//@   uses keys.smt2 ec.smt2
+//@   given NAMEOIDS
+//@   given NAMEOIDSOK
+//@   given oidv(oidRsaEncryption) == oid("1.2.840.113549.1.1.1") && oidv(oidEcPublicKey) == oid("1.2.840.10045.2.1")
 //@   requires ctx != nil && ctx.TbsCertificate != nil
+//@   let K = typed(unboxRef(key), "*crypto/ecdsa.PrivateKey")
+//@   let R = typed(unboxRef(key), "*crypto/rsa.PrivateKey")
+//@   let SPKI = ctx.TbsCertificate.PublicKey
+//@   assume typeis(key, "*crypto/ecdsa.PrivateKey") ==> K != nil && K.Curve != nil && K.X != nil && K.Y != nil && 4 <= curveId(K.Curve) && curveId(K.Curve) <= 13
+//@   assume typeis(key, "*crypto/rsa.PrivateKey") ==> R != nil && R.PublicKey.N != nil
 //@   assigns ctx.PrivateKey; ctx.TbsCertificate.PublicKey
-//@   abstracts err == nil ==> ctx.PrivateKey == key && deep(ctx.TbsCertificate.PublicKey) == spkiDeep(key)
+//@   ensures @C05,C14 ctx.PrivateKey == key
+//@   ensures @C05,C14 typeis(key, "*crypto/rsa.PrivateKey") ==> err == nil && oidv(SPKI.Algorithm.Algorithm) == oid("1.2.840.113549.1.1.1") && SPKI.Algorithm.Parameters.Tag == 5 && SPKI.Algorithm.Parameters.Class == 0 && len(SPKI.Algorithm.Parameters.FullBytes) == 0 && len(SPKI.Algorithm.Parameters.Bytes) == 0 && bytes(SPKI.PublicKey.Bytes) == pkcs1pub(BigVal(R.PublicKey.N), R.PublicKey.E)
+//@   ensures @C05,C14 typeis(key, "*crypto/ecdsa.PrivateKey") ==> err == nil && oidv(SPKI.Algorithm.Algorithm) == oid("1.2.840.10045.2.1") && bytes(SPKI.Algorithm.Parameters.FullBytes) == der(deepOid(specCurveOid(curveId(K.Curve)))) && bytes(SPKI.PublicKey.Bytes) == ecPoint(curveId(K.Curve), BigVal(K.X), BigVal(K.Y))
+//@   ensures @C05,C14 !typeis(key, "*crypto/rsa.PrivateKey") && !typeis(key, "*crypto/ecdsa.PrivateKey") ==> err != nil
+//@   abstracts err == nil ==> deep(ctx.TbsCertificate.PublicKey) == spkiDeep(key)
 
+// GeneratePrivateKey: an RSA key of exactly the modulus length the algorithm names, or an EC key on exactly the named
+// curve; the context's key and SubjectPublicKeyInfo are then those of SetPrivateKey.
 //@ func (*CertificateContext).GeneratePrivateKey returns (err)
 //@   props C05
-//@   unverified key generation and curve tables of dependencies not yet contracted
-//@   uses keys.smt2
+//@   uses keys.smt2 ec.smt2
+//@   given CURVES
+//@   given keyTypes != nil && (forall a in [0, 14) expand :: has(keyTypes, a) && keyTypes[a] == (if a <= 3 then 0 else 1))
 //@   requires ctx != nil && ctx.TbsCertificate != nil
 //@   assigns ctx.PrivateKey; ctx.TbsCertificate.PublicKey
+//@   let GK = typed(unboxRef(ctx.PrivateKey), "*crypto/ecdsa.PrivateKey")
+//@   let GR = typed(unboxRef(ctx.PrivateKey), "*crypto/rsa.PrivateKey")
+//@   ensures @C05 err == nil && 0 <= keyAlg && keyAlg <= 3 ==> typeis(ctx.PrivateKey, "*crypto/rsa.PrivateKey") && GR != nil && GR.PublicKey.N != nil && bitlen(BigVal(GR.PublicKey.N)) == (if keyAlg == 0 then 1024 else if keyAlg == 1 then 2048 else if keyAlg == 2 then 4096 else 8192)
+//@   ensures @C05 err == nil && 4 <= keyAlg && keyAlg <= 13 ==> typeis(ctx.PrivateKey, "*crypto/ecdsa.PrivateKey") && GK != nil && GK.Curve != nil && curveId(GK.Curve) == keyAlg
+//@   ensures @C05 err == nil ==> 0 <= keyAlg && keyAlg <= 13
 //@   abstracts err == nil ==> ctx.PrivateKey != nil && keyAlgOf(ctx.PrivateKey) == keyAlg && deep(ctx.TbsCertificate.PublicKey) == spkiDeep(ctx.PrivateKey)
 
 // ---- PEM output (C02, C10, C14): one block of the right type holding the DER of the value
@@ -161,7 +182,8 @@ package cert
 
 //@ filelet CURVES = curves != nil && (forall a in [4, 14) :: has(curves, a) && curves[a] != nil && curveId(curves[a]) == a)
 //@ filelet OIDCURVES = oidv(oidP224) == specCurveOid(4) && oidv(oidP256) == specCurveOid(5) && oidv(oidP384) == specCurveOid(6) && oidv(oidP521) == specCurveOid(7) && oidv(oidBrainpoolP256r1) == specCurveOid(8) && oidv(oidBrainpoolP384r1) == specCurveOid(9) && oidv(oidBrainpoolP512r1) == specCurveOid(10) && oidv(oidBrainpoolP256t1) == specCurveOid(11) && oidv(oidBrainpoolP384t1) == specCurveOid(12) && oidv(oidBrainpoolP512t1) == specCurveOid(13)
-//@ filelet NAMEOIDS = curveNameOids != nil && (forall a in [4, 14) expand :: has(curveNameOids, curveName(a)) && curveNameOids[curveName(a)] != nil && oidv(curveNameOids[curveName(a)]) == specCurveOid(a))
+//@ filelet NAMEOIDSOK = (forall a in [4, 14) trigger curveName(a) :: len(curveNameOids[curveName(a)]) >= 2 && curveNameOids[curveName(a)][0] == 1 && 0 <= curveNameOids[curveName(a)][1] && curveNameOids[curveName(a)][1] < 40 && (forall k in [2, len(curveNameOids[curveName(a)])) :: curveNameOids[curveName(a)][k] >= 0))
+//@ filelet NAMEOIDS = curveNameOids != nil && (forall a in [4, 14) trigger curveName(a) :: has(curveNameOids, curveName(a)) && curveNameOids[curveName(a)] != nil && oidv(curveNameOids[curveName(a)]) == specCurveOid(a))
 
 // ---- extensions (C06: identifier and critical flag; C07: value)
 //@ filelet EXTOIDS = oidExtensionSubjectKeyId != nil && oidv(oidExtensionSubjectKeyId) == specExtOid(0) && oidExtensionKeyUsage != nil && oidv(oidExtensionKeyUsage) == specExtOid(1) && oidExtensionExtendedKeyUsage != nil && oidv(oidExtensionExtendedKeyUsage) == specExtOid(2) && oidExtensionAuthorityKeyId != nil && oidv(oidExtensionAuthorityKeyId) == specExtOid(3) && oidExtensionBasicConstraints != nil && oidv(oidExtensionBasicConstraints) == specExtOid(4) && oidExtensionSubjectAltName != nil && oidv(oidExtensionSubjectAltName) == specExtOid(5) && oidExtensionCertificatePolicies != nil && oidv(oidExtensionCertificatePolicies) == specExtOid(6) && oidExtensionAuthorityInfoAccess != nil && oidv(oidExtensionAuthorityInfoAccess) == specExtOid(9) && oidExtensionAdmission != nil && oidv(oidExtensionAdmission) == specExtOid(11) && oidExtensionOcspNoCheck != nil && oidv(oidExtensionOcspNoCheck) == specExtOid(12)
